@@ -253,4 +253,88 @@ def initSt (env : Env) (x : Item) : St :=
 /-- `extract(x)` up to the construction of the Stack. -/
 def extract (env : Env) (fuel : Nat) (x : Item) : Outcome := run env fuel (initSt env x)
 
+
+/-! ### The same loop with Python's *partial* operations made explicit (for C05)
+
+`deque.popleft()` / `deque.pop()` / `seq[-1]` raise `IndexError` on an empty container, and `assert`
+raises `AssertionError`; none of these sits inside a `try` in `extract_iter`, so each would escape
+`extract()`.  `runX` performs them as partial operations; C05 proves it never fails. -/
+
+inductive Crash
+  | index       -- IndexError: pop from an empty deque / index out of range
+  | assertion   -- AssertionError
+  deriving DecidableEq, Repr
+
+def popleft? {α : Type} : List α → Except Crash (α × List α)
+  | [] => .error .index
+  | x :: xs => .ok (x, xs)
+
+def last! {α : Type} : List α → Except Crash α
+  | [] => .error .index
+  | x :: xs => .ok ((x :: xs).getLast (by simp))
+
+def elabStepX (env : Env) (s : St) : Except Crash (Sum Outcome St) := do
+  -- if not to_elaborate: break
+  if s.toElab.isEmpty then return .inl (.done s.out .none s.errors)
+  -- if not isinstance(to_elaborate[0][0], Frame):
+  let (first, _) ← popleft? s.toElab                    -- to_elaborate[0]
+  match first.node with
+  | .frameObj _ =>
+    let (fd, rest) ← popleft? s.toElab                  -- frame, depth = to_elaborate.popleft()
+    match fd.node with
+    | .frameObj f =>
+      let d := fd.depth
+      let next := nextObj rest.head?
+      let ctxE : List Err := if env.withContexts then (env.ctxErrs f.pyframe).map .hook else []
+      let r := env.elabFn f.pyframe (nextView rest.head?)
+      let (items?, hide, elabE) : Option (List Obj) × Bool × List Err :=
+        match r with
+        | .none => (none, env.elabHide f.pyframe, [])
+        | .one e =>
+          if resolveElem next e = .none then (none, env.elabHide f.pyframe, [])
+          else (some [resolveElem next e], env.elabHide f.pyframe, [])
+        | .seq es => (some (es.map (resolveElem next)), env.elabHide f.pyframe, [])
+        | .raise e => (some [], false, [.hook e])
+      let s1 : St := { s with out := s.out ++ [⟨f, hide⟩], errors := s.errors ++ ctxE ++ elabE, loops := 0 }
+      match items? with
+      | none => return .inr { s1 with toElab := rest }
+      | some items =>
+        let back : List QE := rest.map (fun e => ⟨none, e.node, e.depth⟩)
+        -- `not items or items[-1] is not next_inner`: items[-1] is only evaluated when items is non-empty
+        let replacing ← (if items.isEmpty then pure true else do
+                           let l ← last! items
+                           pure (l != next))
+        let (items', back') :=
+          if replacing then (items, back.dropWhile (fun q => q.depth ≥ d)) else (items.dropLast, back)
+        let queued : List QE := items'.map (fun o => ⟨betterOrigin env o none, o, d⟩)
+        return .inr { s1 with toUnwrap := queued ++ back', toElab := [] }
+    | _ => throw .assertion                              -- assert isinstance(frame, Frame)
+  | _ =>
+    -- reached a leaf:  assert not to_unwrap
+    if !s.toUnwrap.isEmpty then throw .assertion
+    return .inl (.done s.out (match s.toElab with | [e] => .one e.node | es => .many (es.map (·.node))) s.errors)
+
+def runX (env : Env) : Nat → St → Except Crash Outcome
+  | 0, _ => .ok .outOfFuel
+  | fuel+1, s =>
+    match unwrapPhase env (fuel+1) s with
+    | none => .ok .outOfFuel
+    | some s' =>
+      match elabStepX env s' with
+      | .error c => .error c
+      | .ok (.inl o) => .ok o
+      | .ok (.inr s'') => runX env fuel s''
+
+/-- `Stack.error`: nothing, the only exception, or an ExceptionGroup of all of them. -/
+inductive StackError
+  | none
+  | single (e : Err)
+  | group (es : List Err)
+  deriving DecidableEq, Repr
+
+def stackError : List Err → StackError
+  | [] => .none
+  | [e] => .single e
+  | es => .group es
+
 end SS.Extract
